@@ -216,7 +216,7 @@ def mutate_text(rng, text):
     lines = [l for l in lines if l]
     if len(lines) < 3:
         return text + "TZID:x\r\n"
-    k = rng.randint(0, 9)
+    k = rng.randint(0, 11)
     protected = lambda l: l.upper().startswith(("RRULE", "DTSTART", "RDATE"))
     if k == 0:
         i = rng.randrange(len(lines)); del lines[i]
@@ -245,6 +245,23 @@ def mutate_text(rng, text):
             lines[i] = lines[i] + rng.choice([" ", "\t", "  "])
     elif k == 8:
         i = rng.randrange(1, len(lines)); lines[i] = " " + lines[i]       # becomes a continuation of the previous line
+    elif k in (10, 11):
+        # several VTIMEZONEs, each of the later ones with its own TZID, without a TZID (mandatory per zone), or with the
+        # TZID only after the components; per-zone state (TZID, component list) must not leak from one zone to the next
+        zone = list(lines)
+        for j in range(rng.randint(1, 2)):
+            variant = rng.randint(0, 3)
+            nz = [l.replace("TZID:Test", "TZID:Second" if j == 0 else "TZID:Third") for l in zone]
+            if variant == 1:
+                nz = [l for l in nz if not l.upper().startswith("TZID")]
+            elif variant == 2:
+                tz_l = [l for l in nz if l.upper().startswith("TZID")]
+                nz = [l for l in nz if not l.upper().startswith("TZID")]
+                nz = nz[:-1] + tz_l + nz[-1:]
+            elif variant == 3:
+                # a zone without components after a complete one
+                nz = [l for l in nz if l.upper().startswith(("BEGIN:VTIMEZONE", "END:VTIMEZONE", "TZID"))]
+            lines = lines + nz
     else:
         sep = rng.choice(["\n", "\r", "\r\n"])
         return sep.join(lines) + sep
@@ -397,8 +414,70 @@ def same(ctx, what, spec, text, a, b, case):
         return False
     return True
 
+FRESH_CHILD = """
+import sys, io, datetime, warnings
+warnings.simplefilter("ignore")
+from dateutil import tz
+text = bytes.fromhex(%r).decode()
+try:
+    z = tz.tzical(io.StringIO(text)).get()
+    for s in %r:
+        u = datetime.datetime(1970, 1, 1) + datetime.timedelta(seconds=s)
+        b = u.replace(tzinfo=tz.UTC).astimezone(z)
+        print(b.replace(tzinfo=None).isoformat(), b.fold, b.utcoffset(), b.tzname(), b.dst())
+except Exception as ex:
+    print("EXC", type(ex).__name__)
+"""
+
+def answers_in_process(text, points):
+    from dateutil import tz
+    out = []
+    try:
+        with warnings.catch_warnings():
+            warnings.simplefilter("ignore")
+            z = load(text).get()
+            for s in points:
+                u = datetime.datetime(1970, 1, 1) + datetime.timedelta(seconds=s)
+                b = u.replace(tzinfo=tz.UTC).astimezone(z)
+                out.append("%s %s %s %s %s" % (b.replace(tzinfo=None).isoformat(), b.fold, b.utcoffset(), b.tzname(), b.dst()))
+    except Exception as ex:
+        out.append("EXC %s" % type(ex).__name__)
+    return out
+
+def oracle_fresh(ctx):
+    """the first use in a NEW interpreter gives what a long-running process gives: a definition is loaded and queried as the
+    very first dateutil call of a child process (module-level lazy imports and caches empty) and compared with this process,
+    whose answers the main oracle compares with the TZ string"""
+    from vlib import fresh_interpreters
+    rng = ctx.subrng("fresh")
+    jobs = []
+    for k in range(ctx.budget(6, 48)):
+        spec = gen_spec(rng)
+        rd = None
+        if k % 3 != 1:
+            rd = {"dst": [], "std": []}
+            for y in range(2014, 2020):
+                a = datetime.datetime.combine(rule_date(y, spec["sr"]), datetime.time()) + datetime.timedelta(seconds=spec["st"])
+                b = datetime.datetime.combine(rule_date(y, spec["er"]), datetime.time()) + datetime.timedelta(seconds=spec["et"])
+                rd["dst"].append(a.strftime("%Y%m%dT%H%M%S")); rd["std"].append(b.strftime("%Y%m%dT%H%M%S"))
+        text = vtimezone(spec, rng if k % 2 else None, order=rng.randint(0, 1), rdates=rd)
+        epoch = datetime.datetime(1970, 1, 1)
+        points = sorted(int((tu - epoch).total_seconds()) + d for y in (2015, 2018) for tu in transitions_utc(spec, y) for d in (-3600, -1, 0, 1, 3600))
+        jobs.append((text, points, "rdate" if rd else "rrule"))
+    res = fresh_interpreters([FRESH_CHILD % (text.encode().hex(), points) for text, points, _ in jobs])
+    for (text, points, kind), (rc, out, err) in zip(jobs, res):
+        ctx.case(("fresh", text)); ctx.count("fresh_interpreter_" + kind)
+        here = answers_in_process(text, points)
+        there = out.strip().splitlines() if rc == 0 else ["child failed rc=%s: %s" % (rc, err.strip().splitlines()[-1:] or "")]
+        if here != there:
+            i = next((j for j, (x, y) in enumerate(zip(here, there)) if x != y), min(len(here), len(there)))
+            ctx.violation("a VTIMEZONE loaded as the first dateutil call of a new interpreter answers differently: %s, this process: %s"
+                          % (there[i] if i < len(there) else "<nothing>", here[i] if i < len(here) else "<nothing>"),
+                          {"kind": "fresh-interpreter", "mode": kind}, text)
+
 def oracle(ctx):
     from dateutil import tz
+    oracle_fresh(ctx)
     rng = ctx.subrng("oracle")
     nspecs = ctx.budget(40, 1200)
     for k in range(nspecs):
@@ -545,6 +624,11 @@ def oracle(ctx):
         "unknown-property": "\r\n".join(good).replace("TZNAME:SSS", "X-WHAT:SSS"), "unclosed-component": drop("END:DAYLIGHT"),
         "no-components": "BEGIN:VTIMEZONE\r\nTZID:x\r\nEND:VTIMEZONE\r\n", "empty": "", "bad-offset": "\r\n".join(good).replace("TZOFFSETTO:", "TZOFFSETTO:x", 1),
         "mismatched-end": "\r\n".join(good).replace("END:STANDARD", "END:DAYLIGHT", 1),
+        # every VTIMEZONE needs its own TZID and its own components: nothing carries over from the zone before it
+        "second-zone-missing-TZID": "\r\n".join(good) + "\r\n" + drop("TZID"),
+        "third-zone-missing-TZID": "\r\n".join(good) + "\r\n" + "\r\n".join(good).replace("TZID:Test", "TZID:B") + "\r\n" + drop("TZID"),
+        "second-zone-no-components": "\r\n".join(good) + "\r\nBEGIN:VTIMEZONE\r\nTZID:B\r\nEND:VTIMEZONE\r\n",
+        "first-zone-missing-TZID": drop("TZID") + "\r\n" + "\r\n".join(good),
     }
     for cls, text in malformed.items():
         ctx.case(("malformed", cls)); ctx.count("malformed_" + cls)
